@@ -302,12 +302,40 @@ def run(ctx):
     R = _local_assigned(getf, lambda v: isinstance(v, ast.Call) and unparse(v.func) == "self.tags.get") or "result"
     pairs = [(f"{R} is TagNotFoundError", "TagNotFoundError"), (f"{R} is RepeatingTagError", "RepeatingTagError"),
              (f"isinstance({R}, _FIXRepeatingGroupContainer)", "FIXMessageError")]
+    gg = CFG(getf)
+    grd = reaching_defs(gg, exc=False)
+
+    def raised_classes(e, at, depth=0):
+        """class names an expression raised at node `at` may be an instance of (through the locals it was built in)"""
+        if isinstance(e, ast.Call) and isinstance(e.func, ast.Name):
+            return {e.func.id}
+        if isinstance(e, ast.Name) and depth < 3:
+            out = set()
+            for d in grd[at].get(e.id, set()):
+                v = getattr(gg.nodes[d].ast, "value", None)
+                out |= raised_classes(v, d, depth + 1) if v is not None else {"?"}
+            return out or {"?"}
+        return {"?"}
     for test, err in pairs:
         ok = False
-        for n in walk_no_nested(getf):
-            if isinstance(n, ast.If) and unparse(n.test) == test:
-                ok = any(isinstance(x, ast.Raise) and unparse(x.exc).startswith(err + "(") for x in n.body)
-        ctx.instance("C18.typed-lookups", f"get[{err}]", ok, f"get() no longer maps `{test}` to {err}", loc(getf))
+        for n in gg.nodes:
+            if n.kind == "stmt" and isinstance(n.ast, ast.Raise) and n.ast.exc is not None and raised_classes(n.ast.exc, n.id) == {err}:
+                fs_ = set()
+                for t_, lab_ in gg.guards(n.id, exc=False):
+                    fs_ |= facts(t_, lab_ == "true")
+                if (test, True) in fs_:
+                    ok = True
+        # ... and whenever the test holds: no path to a normal return on which the test was not seen to fail
+        from sa.guards import unprotected_path as _unprot, fact_edges as _fact_edges
+        failed_edges = _fact_edges(gg, {(test, False)})
+        leak = None
+        for n in gg.nodes:
+            if n.kind == "stmt" and isinstance(n.ast, ast.Return):
+                w = _unprot(gg, n.id, [], failed_edges, exc=False)
+                if w is not None:
+                    leak = w
+        ctx.instance("C18.typed-lookups", f"get[{err}]", ok and leak is None, f"get() no longer maps `{test}` to {err}" +
+                     (" on every path: the value can be returned although the test would hold" if ok else ""), loc(getf), gg.describe(leak or [])[-6:])
     ggl = methods["get_group_list"]
     ok1 = ok2 = False
     IG = _local_assigned(ggl, lambda v: isinstance(v, ast.Call) and unparse(v.func) == "self.is_group") or "is_group"
